@@ -3,8 +3,9 @@
 LEVEL exploration: a specification cannot predict which inputs crash without being the
 implementation.  spec/hostile contributes
   (a) the hostile input space -- the domain (RFC 9110 field-value characters), per header family a
-      token alphabet, and TLC enumerates every token sequence up to a bound, every domain character
-      in every context and every pumped token (MCHostile; invariants: in domain, bounded); the
+      token alphabet, and TLC enumerates every token sequence up to a bound, the grammar-generated
+      number / instant neighbourhoods (Range, Content-Range, dates), every domain character in
+      every context and every pumped token (MCHostile; invariants: in domain, bounded); the
       texts are exported and fed to the functions / environ slots the spec assigns to the family;
   (b) the outcome contract -- Hostile!Table (function -> positions -> documented result signatures)
       and Hostile!Clause, evaluated by TLC (HostileTrace) on every distinct recorded outcome vector.
@@ -86,7 +87,7 @@ def run(ctx: Ctx):
     ctx.rule = ("case = (function or Request environ slot, hostile text): the function is called / the Request is built from a "
                 "well-formed environ with the text in that client-controlled variable and every position of Hostile!Table "
                 "(the call, the uses of the result, every public Request attribute) is executed; texts = TLC-enumerated token "
-                "sequences per header family, every domain character in every context, pumped tokens and token pairs (1-8 KiB), seeded random "
+                "sequences per header family, grammar-generated neighbouring numbers / boundary instants (Range, Content-Range, dates), every domain character in every context, pumped tokens and token pairs (1-8 KiB), seeded random "
                 "token sequences (also across families); identical outcome vectors are grouped and each distinct vector is "
                 "judged by TLC; non-trivial = distinct (function/slot, text) whose text has >= 2 tokens or is a sweep/pump text")
     ctx.assumptions += [
@@ -118,7 +119,7 @@ def run(ctx: Ctx):
     items = []
     trivial = set()          # texts of at most one token
     # every text goes to every pure function of its family; a Request is ~30x dearer than a pure call, so sequences of >= 3
-    # tokens (and, in the quick tier, 2-token sequences / sweep / pump texts) go to a seeded sample of the family's slots
+    # tokens (and, in the quick tier, 2-token sequences / grammar / sweep / pump texts) go to a seeded sample of the family's slots
     for (fam, mode), ss in sorted(texts.items()):
         tb = tables[fam]
         for s, ntok in sorted(ss.items()):
@@ -128,6 +129,8 @@ def run(ctx: Ctx):
             if mode == "seq" and ntok >= 3:
                 slots = rng.sample(slots, 1)
             elif mode == "seq" and ntok == 2 and q:
+                slots = rng.sample(slots, min(2, len(slots)))
+            elif mode == "gram" and q:
                 slots = rng.sample(slots, min(2, len(slots)))
             elif mode == "sweep" and q:
                 slots = rng.sample(slots, 1)
